@@ -92,10 +92,17 @@ class C13(ProgramProperty):
                 steps += [q(c, "expand_pair", p, "1"), q(c, "standardize_prefix", p)]
             for u in probes_u:
                 steps += [q(c, "compress", u)]
+        # history: a loaded converter is curated further (merge), then the same data is loaded again
+        hist = []
+        if rng.random() < 0.4:
+            k = rng.choice([0, 1, 2, 4, 5])
+            again = dict(next(st for st in steps if st.get("dst") == k and st["op"].startswith("load_")), dst=20)
+            steps += gen.live_tail(rng, recs, k, [], redo=[again])
+            hist = ["history:load-merge-load-again"]
         nonbij = len(pm) > len(recs)
         tie = any(len({len(u) for u in [r["u"]] + r["us"]}) < len([r["u"]] + r["us"]) for r in recs)
         return {"steps": steps, "recs": recs, "nontrivial": nonbij or tie,
-                "tags": ["non-bijective" if nonbij else "bijective"] + (["reverse-tie"] if tie else [])}
+                "tags": ["non-bijective" if nonbij else "bijective"] + (["reverse-tie"] if tie else []) + hist}
 
     # ---- execution: file / rdflib loaders are harness-level operations --------------------------
     def run_impl(self, case):
